@@ -25,6 +25,13 @@ THEOREMS = [
              "active record with nothing of it out -- exactly the state of finding D24 (Example d24_is_the_stuck_task); no "
              "record ever holds requested/scheduled/delayed/resuming/pending/timeout/abandoned under this protocol. NOT "
              "proved: 'quiescent and not resting => the D24 situation arose'"},
+    {"name": "C03f_pausing_canceling_has_action_in_flight / C03f_pausing_canceling_idle_is_flagged / "
+             "C03f_active_record_backed / C03f_pausing_canceling_no_untold_task (props/C03f.v)", "strength": "F",
+     "text": "WITH items, finding D24 as a computed flag (run_d24: a step that is not a status request takes the workflow "
+             "into pausing/canceling while a running with-items task has a never-offered item): pausing/canceling with the "
+             "flag down => something in flight; pausing/canceling with nothing in flight => the flag is up (D24 is the ONLY "
+             "way to be stuck there); every active record has an action in flight or is running with a never-offered item. "
+             "NOT proved: quiescent and running/resuming => flag (needs an offer-liveness lemma for get_next_tasks)"},
     {"name": "C03d_quiescent_no_active_slot / C03d_quiescence_refuted_by_D24 (props/C03d.v)", "strength": "R",
      "text": "WITH items: at a quiescent state no staged table has an active slot; quiescence => resting is REFUTED by finding "
              "D24 as a theorem (no fault, no wipe, monitor silent, yet canceling forever with nothing in flight)"},
